@@ -7,6 +7,8 @@
   through if/then/else carry `then`/`else` there and are attributed to `if`.
 -/
 import JS.Proofs.Union
+import JS.Proofs.UnionRef
+import JS.Props.C15
 namespace JS.Props.C05
 open JS
 
@@ -41,6 +43,27 @@ theorem union_of_keywords (env : Env) (impl : FmtImpl) (d : Draft) (fc : Option 
               (attributed kv.1)).map eraseSchema) :=
   union_step env impl (draft_kwFacts d fc) (fun i s hs => eval_stInd env impl d fc fuel i s hs)
     i kvs (by simp only [Spec.WF, Bool.and_eq_true] at hwf; exact hwf.1) hnr st hdone
+
+/-- **… also with references below.** The schema object itself carries no `$ref` (a reference
+    object IS its target: C02), but its subschemas may contain references of every kind (local,
+    into store documents, retrieved, recursive). In the whole run the resolver's knowledge grows from
+    keyword to keyword (store, memo); each keyword standing alone starts from the initial state.
+    Knowledge is transparent (C15), so the union law still holds: from every state that lives in the
+    world `base`, under stable retrieval. -/
+theorem union_of_keywords_refs (env : Env) (hf : Props.C15.StableFetch env) (hans : Props.C15.FetchAnswered env)
+    (impl : FmtImpl) (d : Draft) (fc : Option FormatChecker)
+    (fuel : Nat) (i : Json) (kvs : List (Str × Json))
+    (hwf : Spec.WF (.obj kvs) = true) (hnoref : Json.lookup (skey "$ref") kvs = none)
+    (base : List (Str × Json)) (st : RState) (hst : Props.C15.SameWorld env base st st)
+    (hdone : (eval env impl (d.cfg fc) (fuel + 1) i (.obj kvs) none st).stop = .done) :
+    (eval env impl (d.cfg fc) (fuel + 1) i (.obj kvs) none st).errs.map eraseSchema
+      = kvs.flatMap fun kv =>
+          (((eval env impl (d.cfg fc) (fuel + 1) i (alone (d.cfg fc) kvs kv.1) none st).errs.filter
+              (attributed kv.1)).map eraseSchema) :=
+  union_step_ref env hf hans impl (draft_kwFacts d fc) (Knowledge.eval_RK hf impl (d.cfg fc) fuel)
+    (scopeOK_eval env impl (d.cfg fc) fuel) i kvs
+    (by simp only [Spec.WF, Bool.and_eq_true] at hwf; exact hwf.1) hnoref st
+    (Props.C15.sameWorld_iff.1 hst).left hdone
 
 /-- each keyword's contribution to the whole is its own run: the exhaustive errors of a schema
     object without `$ref` are the concatenation of the per-keyword runs, in keyword order (state
